@@ -87,6 +87,30 @@ Theorem C18_config_syntax : tlscfg_ok = true.
 Proof. exact tlscfg_literals_ok. Qed.
 Print Assumptions C18_config_syntax.
 
+(* (9) "within its validity period" is exact: a certificate whose validity interval misses `now`
+   by any amount, before or after (two minutes as well as an hour), is refused by the TLS
+   exporter, the DTLS exporter, and the TLS collector that authenticates clients *)
+Theorem C18_validity_exact : forall now H, handshake_contract now H ->
+  (forall i t srv sc,
+     ei_tls i = Some t -> ei_proto i = "tcp" \/ ei_proto i = "udp" ->
+     peer_cert srv = Some sc -> (now < c_nb sc \/ c_na sc < now)%Z ->
+     forall c, init_exporting_process H i srv <> ROk c) /\
+  (forall c p cl cc,
+     ci_enc c = true -> ci_proto c = "tcp" -> ci_ca c = Some p ->
+     peer_cert cl = Some cc -> (now < c_nb cc \/ c_na cc < now)%Z ->
+     collector_session H c cl = None).
+Proof. exact C18_validity_exact_lemma. Qed.
+Print Assumptions C18_validity_exact.
+
+(* (10) a TLS collector that was given client-CA material out of which no certificate parses does
+   not come up at all (Start returns before listening) and delivers nobody's messages - it never
+   degrades to a listener without client authentication; whatever the handshake *)
+Theorem C18_unusable_client_ca : forall c p,
+  ci_enc c = true -> ci_proto c = "tcp" -> ci_ca c = Some p -> pool_of p = [] ->
+  collector_listens c = false /\ forall H cl, collector_session H c cl = None.
+Proof. exact C18_unusable_client_ca_lemma. Qed.
+Print Assumptions C18_unusable_client_ca.
+
 Example C18_constants_match_source :
   (c_tls_VersionTLS12 = 771 /\ c_tls_RequireAndVerifyClientCert = 4 /\ c_dtls_RequireExtendedMasterSecret = 1)%N.
 Proof. repeat split; reflexivity. Qed.
@@ -122,4 +146,47 @@ Example C18_oracle_rejects_unauthenticated_client :
   c18_run ["hsC"; "tls"; "trusted"; "none"; "set"; "13"]
           ["hs=ok"; "ver=772"; "delivered=T"]
   = "hs=ok ver=772 delivered=F | F T".
+Proof. vm_compute. reflexivity. Qed.
+
+(* the validity boundary (time unit of the driver: minutes): a server certificate that becomes
+   valid in two minutes / expired two minutes ago is predicted "refused", and a session with it is
+   rejected by the oracle; likewise a client certificate that expired two minutes ago *)
+Example C18_oracle_rejects_almostvalid :
+  c18_run ["hsE"; "tls"; "almostvalid"; "set"; "none"; "unset"; "13"]
+          ["init=ok"; "conn=tls"; "ver=772"; "rx=T"]
+  = "init=no conn=- ver=- rx=F | F T".
+Proof. vm_compute. reflexivity. Qed.
+Example C18_oracle_rejects_justexpired_dtls :
+  c18_run ["hsE"; "dtls"; "justexpired"; "set"; "none"; "unset"; "12"]
+          ["init=ok"; "conn=dtls"; "ver=-"; "rx=T"]
+  = "init=no conn=- ver=- rx=F | F T".
+Proof. vm_compute. reflexivity. Qed.
+Example C18_oracle_rejects_justexpired_client :
+  c18_run ["hsC"; "tls"; "trusted"; "justexpired"; "set"; "12"]
+          ["hs=ok"; "ver=771"; "delivered=T"]
+  = "hs=no ver=- delivered=F | F T".
+Proof. vm_compute. reflexivity. Qed.
+(* host trust store: "otherca" is issued by the one CA of the harness process's host trust store;
+   the prediction and the oracle do not depend on it (RootCAs is exactly CAData) *)
+Example C18_oracle_rejects_host_root :
+  c18_run ["hsE"; "tls"; "otherca"; "set"; "none"; "unset"; "12"]
+          ["init=ok"; "conn=tls"; "ver=771"; "rx=T"]
+  = "init=no conn=- ver=- rx=F | F T".
+Proof. vm_compute. reflexivity. Qed.
+(* unusable client-CA material: predicted "does not listen"; a delivery from a certificate-less
+   (or any) client is rejected by the oracle *)
+Example C18_unusable_ca_nolisten :
+  c18_run ["hsC"; "tls"; "trusted"; "none"; "der"; "13"]
+          ["hs=no"; "ver=-"; "delivered=F"; "nolisten"]
+  = "hs=no ver=- delivered=F nolisten | T T".
+Proof. vm_compute. reflexivity. Qed.
+Example C18_oracle_rejects_unusable_ca_delivery :
+  c18_run ["hsC"; "tls"; "trusted"; "none"; "keyfile"; "13"]
+          ["hs=ok"; "ver=772"; "delivered=T"]
+  = "hs=no ver=- delivered=F nolisten | F T".
+Proof. vm_compute. reflexivity. Qed.
+Example C18_oracle_rejects_unusable_ca_delivery_with_cert :
+  c18_run ["hsR"; "tls"; "T"; "T"; "trusted"; "set"; "trusted"; "empty"]
+          ["init=ok"; "conn=tls"; "ver=772"; "delivered=T"]
+  = "init=no conn=- ver=- delivered=F nolisten | F T".
 Proof. vm_compute. reflexivity. Qed.
